@@ -18,6 +18,7 @@ Clauses of the property:
     on the file system whenever Source is idempotent on its own output).
 -/
 import GoZero.C20.ProofsLayout
+import GoZero.C20.Props
 namespace GoZero.C20.Layout
 
 /-- no index outside `a.Stmts` is ever read, whatever the statement list -/
@@ -81,6 +82,26 @@ example : textLayout [.syntaxS "\"v1\"", .importLit "\"a\"", .importGroup [], .i
 /-- the AST.Format model never crashes on the statement list of ANY program of the token-level model -/
 theorem format_layout_never_crashes (a : Api) : crashes (astFormat (a.map stOf)) = false :=
   astFormat_never_crashes _
+
+/-- END TO END, tokens and blank lines: for every well-formed program, parse ∘ format is defined, keeps the API
+description, a second formatting pass writes the same tokens AND the same blank-line layout, and neither pass of
+AST.Format's statement loop reads outside `a.Stmts` -/
+theorem format_correct_layout (a : Api) (h : WF a) :
+    ∃ b, parse (format a) = some b ∧ sameDesc a b = true ∧ format b = format a ∧ WF b ∧
+      textLayout b = textLayout a ∧
+      crashes (astFormat (a.map stOf)) = false ∧ crashes (astFormat (b.map stOf)) = false := by
+  obtain ⟨b, hb, hd, hf, hw⟩ := format_correct a h
+  have hn : b = norm a := by
+    have := parse_print (norm a) (norm_wf a h)
+    unfold format at hb
+    rw [this] at hb
+    exact (Option.some.inj hb).symm
+  refine ⟨b, hb, hd, hf, hw, ?_, astFormat_never_crashes _, astFormat_never_crashes _⟩
+  rw [hn, textLayout_idempotent]
+
+example : ∃ b, parse (format sampleApi) = some b ∧ textLayout b = textLayout sampleApi :=
+  let ⟨b, hb, _, _, _, hl, _⟩ := format_correct_layout sampleApi sampleApi_wf
+  ⟨b, hb, hl⟩
 
 /-! ### format.File -/
 
